@@ -11,6 +11,12 @@
     * print.go: github-actions escapes data / property values by GitHub's rules, msvs prints
       line breaks as spaces; the pre-fix printers are `ghaLineOld` / `msvsLineOld`.
 
+  Besides the printers the model has, for every format, the DECODER a consumer of that format
+  runs (`parseTextLine`, `parseMsvsLine`, `parseGhaLine` with GitHub's unescape, `parseJunitCase`;
+  `parseDoc` for a whole document) — `BufProofs.C20.formats_decode` proves they invert the
+  printers, the driver runs them on the real output — and a model of the Go error VALUES the exit
+  status is computed from (`GoErr`, `handleFAS`, `wrapError`, `getExitCode`).
+
   Strings are `List Char` (valid UTF-8 Go strings).  Line/column numbers are `Nat` (the
   producers — protocompile locations, check plugins — never emit negative numbers; 0 = unknown).
   Core Lean only; everything is total and structurally recursive so that `decide` can evaluate it.
@@ -215,9 +221,17 @@ structure JSuite where
   cases : List JCase
 deriving DecidableEq, Repr
 
-def junitCaseName (a : Annot) : Str :=
-  a.type ++ (if a.sc ≠ 0 then '_' :: itoa a.sl ++ '_' :: itoa a.sc
-             else if a.sl ≠ 0 then '_' :: itoa a.sl else [])
+/-- the position suffix of a testcase name: `_<line>_<column>` when the column is known,
+    `_<line>` when only the line is, nothing otherwise (printFileAnnotationAsJUnit) -/
+def junitPosSuffix (sl sc : Nat) : Str :=
+  if sc ≠ 0 then '_' :: itoa sl ++ '_' :: itoa sc
+  else if sl ≠ 0 then '_' :: itoa sl else []
+
+/-- testcase name as a function of the three fields it is made of: rule ID, start line, start
+    column (the RAW numbers: 0 = unknown; json shows 1 for those) -/
+def junitName (type : Str) (sl sc : Nat) : Str := type ++ junitPosSuffix sl sc
+
+def junitCaseName (a : Annot) : Str := junitName a.type a.sl a.sc
 
 def junitCase (a : Annot) : JCase :=
   { name := junitCaseName a, message := textLine a, type := a.type }
@@ -297,89 +311,550 @@ def Doc.items : Doc → List Rendered
 /-- PrintFileAnnotationSet(NewFileAnnotationSet(as…), fmt) -/
 def printSet (f : Format) (as : List Annot) : Doc := printDoc f (dedupSort as)
 
-/-! ### exit status (controller.handleFileAnnotationSetRetError, wrapError, GetExitCode) -/
+/-! ### decoders: what a consumer reads back from the printed text
 
-/-- What a step of a command can fail with. -/
-inductive StepErr where
-  /-- the error chain holds a FileAnnotationSet; `NewFileAnnotationSet` never builds an empty
-      one, hence head + tail (raw, before dedup/sort). -/
-  | annots (hd : Annot) (tl : List Annot)
-  /-- *bufmodule.ImportNotExistError in the chain -/
+Every format gets a decoder of ONE printed record back to the tuple of fields the format
+carries.  The decoders are what a line-oriented consumer does (split at the first separator,
+read a decimal number, undo GitHub's escaping); `BufProofs.C20.formats_decode` proves that they
+invert the printers above — under an explicit side condition where the format does not escape
+(text, msvs) and unconditionally where it does (github-actions).  The driver runs the same
+decoders on the REAL output of the implementation (`dec` lines of the protocol) and the harness
+compares the result with its own decoders. -/
+
+/-- split at the first occurrence of `sep`: (before, after) -/
+def cutAt (sep : Char) : Str → Option (Str × Str)
+  | [] => none
+  | c :: cs => if c = sep then some ([], cs) else (cutAt sep cs).map fun ab => (c :: ab.1, ab.2)
+
+/-- strip a literal prefix -/
+def dropPrefix : Str → Str → Option Str
+  | [], s => some s
+  | _ :: _, [] => none
+  | p :: ps, c :: cs => if p = c then dropPrefix ps cs else none
+
+/-- a decimal number in front (at least one digit; strconv.Atoi of the leading digit run) -/
+def readNat (s : Str) : Option (Nat × Str) :=
+  let ds := s.takeWhile Char.isDigit
+  if ds = [] then none else some (Nat.ofDigitChars 10 ds 0, s.dropWhile Char.isDigit)
+
+/-- the text a message-carrying format shows after the position: message + " (plugin)" -/
+def withPlugin (m plugin : Str) : Str := m ++ pluginSuffix id plugin
+
+/-- fields of a text line `path:line:column:message` -/
+structure TextF where
+  path : Str
+  line : Nat
+  col : Nat
+  text : Str
+deriving DecidableEq, Repr
+
+/-- decoder of the text format: the path ends at the FIRST ':' -/
+def parseTextLine (s : Str) : Option TextF := do
+  let (p, r) ← cutAt ':' s
+  let (l, r) ← readNat r
+  let r ← dropPrefix [':'] r
+  let (c, r) ← readNat r
+  let r ← dropPrefix [':'] r
+  some { path := p, line := l, col := c, text := r }
+
+/-- what the text format carries of an annotation -/
+def textF (a : Annot) : TextF :=
+  { path := dispPath a, line := atLeast1 a.sl, col := atLeast1 a.sc, text := withPlugin (shownMsg a) a.plugin }
+
+/-- fields of an msvs line `path(line,column) : error TYPE : message` -/
+structure MsvsF where
+  path : Str
+  line : Nat
+  col : Nat
+  type : Str
+  text : Str
+deriving DecidableEq, Repr
+
+/-- all but the last character, which must be a space -/
+def dropTrailingSpace (s : Str) : Option Str :=
+  if s.getLast? = some ' ' then some s.dropLast else none
+
+/-- decoder of the msvs format: the path ends at the FIRST '(', the type at the first ':' -/
+def parseMsvsLine (s : Str) : Option MsvsF := do
+  let (p, r) ← cutAt '(' s
+  let (l, r) ← readNat r
+  let r ← dropPrefix [','] r
+  let (c, r) ← readNat r
+  let r ← dropPrefix ") : error ".toList r
+  let (t, r) ← cutAt ':' r
+  let t ← dropTrailingSpace t
+  let r ← dropPrefix [' '] r
+  some { path := p, line := l, col := c, type := t, text := r }
+
+/-- what the msvs format carries: line breaks of every string are flattened to spaces -/
+def msvsF (a : Annot) : MsvsF :=
+  { path := oneLine (dispPath a), line := atLeast1 a.sl, col := atLeast1 a.sc,
+    type := oneLine (shownType a), text := oneLine (withPlugin (shownMsg a) a.plugin) }
+
+/-- GitHub's unescape, one pass from the left: at a '%' followed by a known two-character code
+    the decoded character is emitted and the code skipped (`k` = characters still to skip) -/
+def unescAux (dec : Char → Char → Option Char) : Nat → Str → Str
+  | _, [] => []
+  | k + 1, _ :: t => unescAux dec k t
+  | 0, c :: t =>
+    if c = '%' then
+      match t with
+      | a :: b :: _ =>
+        match dec a b with
+        | some x => x :: unescAux dec 2 t
+        | none => c :: unescAux dec 0 t
+      | _ => c :: unescAux dec 0 t
+    else c :: unescAux dec 0 t
+
+def decData (a b : Char) : Option Char :=
+  if a = '2' ∧ b = '5' then some '%' else if a = '0' ∧ b = 'D' then some '\r'
+  else if a = '0' ∧ b = 'A' then some '\n' else none
+
+def decProp (a b : Char) : Option Char :=
+  if a = '2' ∧ b = '5' then some '%' else if a = '0' ∧ b = 'D' then some '\r'
+  else if a = '0' ∧ b = 'A' then some '\n' else if a = '3' ∧ b = 'A' then some ':'
+  else if a = '2' ∧ b = 'C' then some ',' else none
+
+/-- the runner's unescape for command data (%25 %0D %0A) -/
+def unescData (s : Str) : Str := unescAux decData 0 s
+/-- the runner's unescape for property values (%25 %0D %0A %3A %2C) -/
+def unescProp (s : Str) : Str := unescAux decProp 0 s
+
+/-- fields of a github-actions command; a number is 0 when its key is absent -/
+structure GhaF where
+  path : Str
+  line : Nat
+  col : Nat
+  endLine : Nat
+  endCol : Nat
+  msg : Str
+deriving DecidableEq, Repr
+
+/-- an optional `,key=<number>` property: (0, unchanged rest) when the key is not next -/
+def optKey (key : Str) (s : Str) : Option (Nat × Str) :=
+  match dropPrefix key s with
+  | none => some (0, s)
+  | some r => readNat r
+
+/-- decoder of a github-actions workflow command: the (escaped) file value ends at the first
+    ',' or ':', the optional properties come in the printer's order, the data follows `::` -/
+def parseGhaLine (s : Str) : Option GhaF := do
+  let r ← dropPrefix "::error file=".toList s
+  let f := r.takeWhile fun c => c != ',' && c != ':'
+  let r := r.dropWhile fun c => c != ',' && c != ':'
+  let (l, r) ← optKey ",line=".toList r
+  let (c, r) ← optKey ",col=".toList r
+  let (el, r) ← optKey ",endLine=".toList r
+  let (ec, r) ← optKey ",endColumn=".toList r
+  let r ← dropPrefix "::".toList r
+  some { path := unescProp f, line := l, col := c, endLine := el, endCol := ec, msg := unescData r }
+
+/-- what github-actions carries: the RAW numbers, nested as the printer nests them — no
+    column / end position without a start line, no end column without an end line -/
+def ghaF (a : Annot) : GhaF :=
+  { path := dispPath a,
+    line := a.sl,
+    col := if a.sl = 0 then 0 else a.sc,
+    endLine := if a.sl = 0 then 0 else a.el,
+    endCol := if a.sl = 0 then 0 else if a.el = 0 then 0 else a.ec,
+    msg := withPlugin a.msg a.plugin }
+
+/-- the position encoded in a JUnit testcase name after the rule ID -/
+def parsePosSuffix : Str → Option (Nat × Nat)
+  | [] => some (0, 0)
+  | c :: r =>
+    if c = '_' then
+      match readNat r with
+      | none => none
+      | some (l, []) => some (l, 0)
+      | some (l, c' :: r') =>
+        if c' = '_' then
+          match readNat r' with
+          | some (k, []) => some (l, k)
+          | _ => none
+        else none
+    else none
+
+/-- fields of a JUnit testcase: suite name, rule ID (failure type), the raw start position
+    encoded in the testcase name, and the text line carried as failure message -/
+structure JunitF where
+  suite : Str
+  type : Str
+  sl : Nat
+  sc : Nat
+  text : TextF
+deriving DecidableEq, Repr
+
+def parseJunitCase (suite : Str) (c : JCase) : Option JunitF := do
+  let rest ← dropPrefix c.type c.name
+  let (sl, sc) ← parsePosSuffix rest
+  let t ← parseTextLine c.message
+  some { suite := suite, type := c.type, sl := sl, sc := sc, text := t }
+
+def junitF (a : Annot) : JunitF :=
+  { suite := trimProto (dispPath a), type := a.type, sl := a.sl, sc := a.sc, text := textF a }
+
+/-- the fields one record of a format carries -/
+inductive Carried where
+  | text (t : TextF)
+  | msvs (m : MsvsF)
+  | gha (g : GhaF)
+  | json (r : JsonRec)
+  | junit (j : JunitF)
+deriving DecidableEq, Repr
+
+/-- what format `f` carries of annotation `a` -/
+def proj : Format → Annot → Carried
+  | .text, a => .text (textF a)
+  | .msvs, a => .msvs (msvsF a)
+  | .gha, a => .gha (ghaF a)
+  | .json, a => .json (jsonRec a)
+  | .junit, a => .junit (junitF a)
+
+/-- decoder of one record of the document of format `f` -/
+def parseItem : Format → Rendered → Option Carried
+  | .text, .line s => (parseTextLine s).map .text
+  | .msvs, .line s => (parseMsvsLine s).map .msvs
+  | .gha, .line s => (parseGhaLine s).map .gha
+  | .json, .json r => some (.json r)
+  | .junit, .junit suite c => (parseJunitCase suite c).map .junit
+  | _, _ => none
+
+/-- `parse_f`: the decoder of a whole printed document (fails if one record does not parse) -/
+def parseDoc (f : Format) (d : Doc) : Option (List Carried) := d.items.mapM (parseItem f)
+
+/-! ### the fields shared between formats
+
+`Shared` lists the property-level fields (file, position, rule ID, message) at every precision a
+format shows them; `view` says what a decoded record determines (`none` = the format does not
+carry the field for this record). -/
+
+structure Shared where
+  /-- the displayed path ("<input>" without FileInfo) -/
+  file : Option Str
+  /-- … with CR / LF as spaces (msvs) -/
+  fileFlat : Option Str
+  /-- … without the ".proto" suffix (JUnit testsuite name) -/
+  suite : Option Str
+  /-- start line / column, end line / column as shown (unknown = 1) -/
+  line : Option Nat
+  col : Option Nat
+  endLine : Option Nat
+  endCol : Option Nat
+  /-- the rule ID (type) -/
+  rule : Option Str
+  /-- the type msvs shows ("FAILURE" for an empty one), flattened -/
+  ruleFlat : Option Str
+  /-- the message text / msvs / junit show: message (else rule ID, else "FAILURE") + " (plugin)" -/
+  text : Option Str
+  textFlat : Option Str
+  /-- message + " (plugin)" without fall-back (github-actions, json) -/
+  message : Option Str
+deriving DecidableEq, Repr
+
+/-- everything, from the annotation itself -/
+def Shared.full (a : Annot) : Shared :=
+  { file := some (dispPath a), fileFlat := some (oneLine (dispPath a)), suite := some (trimProto (dispPath a)),
+    line := some (atLeast1 a.sl), col := some (atLeast1 a.sc),
+    endLine := some (atLeast1 a.el), endCol := some (atLeast1 a.ec),
+    rule := some a.type, ruleFlat := some (oneLine (shownType a)),
+    text := some (withPlugin (shownMsg a) a.plugin),
+    textFlat := some (oneLine (withPlugin (shownMsg a) a.plugin)),
+    message := some (withPlugin a.msg a.plugin) }
+
+def viewText (t : TextF) : Shared :=
+  { file := some t.path, fileFlat := some (oneLine t.path), suite := some (trimProto t.path),
+    line := some t.line, col := some t.col, endLine := none, endCol := none,
+    rule := none, ruleFlat := none, text := some t.text, textFlat := some (oneLine t.text), message := none }
+
+/-- a github-actions number: absent (0) = not carried -/
+def known (n : Nat) : Option Nat := if n = 0 then none else some n
+
+def shownTypeOf (t : Str) : Str := if t = [] then failureStr else t
+def shownMsgOf (t m : Str) : Str := if m = [] then shownTypeOf t else m
+
+def view : Carried → Shared
+  | .text t => viewText t
+  | .msvs m =>
+    { file := none, fileFlat := some m.path, suite := none, line := some m.line, col := some m.col,
+      endLine := none, endCol := none, rule := none, ruleFlat := some m.type,
+      text := none, textFlat := some m.text, message := none }
+  | .gha g =>
+    { file := some g.path, fileFlat := some (oneLine g.path), suite := some (trimProto g.path),
+      line := known g.line, col := known g.col, endLine := known g.endLine, endCol := known g.endCol,
+      rule := none, ruleFlat := none, text := none, textFlat := none, message := some g.msg }
+  | .json r =>
+    -- a record without `path` key says nothing about the displayed path
+    { file := if r.path = [] then none else some r.path,
+      fileFlat := if r.path = [] then none else some (oneLine r.path),
+      suite := if r.path = [] then none else some (trimProto r.path),
+      line := some r.sl, col := some r.sc, endLine := some r.el, endCol := some r.ec,
+      rule := some r.type, ruleFlat := some (oneLine (shownTypeOf r.type)),
+      text := some (withPlugin (shownMsgOf r.type r.msg) r.plugin),
+      textFlat := some (oneLine (withPlugin (shownMsgOf r.type r.msg) r.plugin)),
+      message := some (withPlugin r.msg r.plugin) }
+  | .junit j =>
+    { viewText j.text with suite := some j.suite, rule := some j.type,
+                           ruleFlat := some (oneLine (shownTypeOf j.type)) }
+
+/-- keep `x` where the other side carries the field too -/
+def keep {α : Type} (x y : Option α) : Option α := if y.isSome then x else none
+
+/-- projection of `s` onto the fields `t` carries as well -/
+def Shared.restrict (s t : Shared) : Shared :=
+  { file := keep s.file t.file, fileFlat := keep s.fileFlat t.fileFlat, suite := keep s.suite t.suite,
+    line := keep s.line t.line, col := keep s.col t.col, endLine := keep s.endLine t.endLine,
+    endCol := keep s.endCol t.endCol, rule := keep s.rule t.rule, ruleFlat := keep s.ruleFlat t.ruleFlat,
+    text := keep s.text t.text, textFlat := keep s.textFlat t.textFlat, message := keep s.message t.message }
+
+/-! ### errors and the exit status
+    (controller.handleFileAnnotationSetRetError, buf.go wrapError, app.GetExitCode, app.printError)
+
+A Go error value is modelled as far as the code looks at it: `errors.As` walks the wrapping
+tree in pre-order (the error itself, then what it wraps; for `errors.Join` the children left to
+right), `Error() == ""` decides whether anything is printed. -/
+
+inductive GoErr where
+  /-- a bufanalysis.FileAnnotationSet (it is an `error`); `NewFileAnnotationSet` never builds an
+      empty one, hence head + tail (raw, before dedup/sort) -/
+  | annotSet (hd : Annot) (tl : List Annot)
+  /-- *bufmodule.ImportNotExistError -/
   | importNotExist
-  /-- anything else: I/O, configuration, flags, … -/
-  | other
+  /-- errors.New(s), an *os.PathError, …: a leaf; `text` = (Error() ≠ "") -/
+  | plain (text : Bool)
+  /-- fmt.Errorf("…: %w", inner) and every other wrapper with its own non-empty text -/
+  | wrapf (inner : GoErr)
+  /-- *app.appError: carries an exit code, Error() is the inner error's -/
+  | app (code : Nat) (inner : GoErr)
+  /-- *syserror.Error ("system error: " + underlying) -/
+  | sys (inner : GoErr)
+  /-- *connect.Error; `special` = one of the codes wrapError answers with a message of its own
+      (unauthenticated, unavailable, the old-BSR shapes) -/
+  | connect (special : Bool) (inner : GoErr)
+  /-- errors.Join(a, b) with both non-nil -/
+  | join (a b : GoErr)
 deriving DecidableEq, Repr
 
-abbrev Step := Option StepErr
+/-- `err.Error() != ""` -/
+def GoErr.text : GoErr → Bool
+  | .annotSet _ _ => true
+  | .importNotExist => true
+  | .plain t => t
+  | .wrapf _ => true
+  | .app _ i => i.text
+  | .sys _ => true
+  | .connect _ _ => true
+  | .join _ _ => true
 
-/-- error that reaches app.Run after wrapError -/
-inductive Final where
-  | ok
-  | fileAnnotation     -- bufctl.ErrFileAnnotation: exit code 100, empty message
-  | importNotExist     -- app.WrapError(100, importNotExistError): "Failure: …"
-  | other              -- "Failure: …", no app error in the chain
-deriving DecidableEq, Repr
+/-- errors.As(err, &fileAnnotationSet): the first FileAnnotationSet of the tree -/
+def GoErr.findAnnots : GoErr → Option (Annot × List Annot)
+  | .annotSet hd tl => some (hd, tl)
+  | .importNotExist => none
+  | .plain _ => none
+  | .wrapf i => i.findAnnots
+  | .app _ i => i.findAnnots
+  | .sys i => i.findAnnots
+  | .connect _ i => i.findAnnots
+  | .join a b => (a.findAnnots).orElse fun _ => b.findAnnots
+
+/-- errors.As(err, &importNotExistError) succeeds -/
+def GoErr.hasImport : GoErr → Bool
+  | .annotSet _ _ => false
+  | .importNotExist => true
+  | .plain _ => false
+  | .wrapf i => i.hasImport
+  | .app _ i => i.hasImport
+  | .sys i => i.hasImport
+  | .connect _ i => i.hasImport
+  | .join a b => a.hasImport || b.hasImport
+
+/-- errors.As(err, &appErr): the exit code of the first *appError -/
+def GoErr.findApp : GoErr → Option Nat
+  | .annotSet _ _ => none
+  | .importNotExist => none
+  | .plain _ => none
+  | .wrapf i => i.findApp
+  | .app c _ => some c
+  | .sys i => i.findApp
+  | .connect _ i => i.findApp
+  | .join a b => (a.findApp).orElse fun _ => b.findApp
+
+/-- syserror.As(err): the Underlying of the first *syserror.Error -/
+def GoErr.findSys : GoErr → Option GoErr
+  | .annotSet _ _ => none
+  | .importNotExist => none
+  | .plain _ => none
+  | .wrapf i => i.findSys
+  | .app _ i => i.findSys
+  | .sys i => some i
+  | .connect _ i => i.findSys
+  | .join a b => (a.findSys).orElse fun _ => b.findSys
+
+/-- errors.As(err, &connectErr): the first *connect.Error (its `special` flag) -/
+def GoErr.findConnect : GoErr → Option Bool
+  | .annotSet _ _ => none
+  | .importNotExist => none
+  | .plain _ => none
+  | .wrapf i => i.findConnect
+  | .app _ i => i.findConnect
+  | .sys i => i.findConnect
+  | .connect s _ => some s
+  | .join a b => (a.findConnect).orElse fun _ => b.findConnect
+
+/-- no *appError anywhere in the tree -/
+def GoErr.noApp : GoErr → Bool
+  | .annotSet _ _ => true
+  | .importNotExist => true
+  | .plain _ => true
+  | .wrapf i => i.noApp
+  | .app _ _ => false
+  | .sys i => i.noApp
+  | .connect _ i => i.noApp
+  | .join a b => a.noApp && b.noApp
 
 def exitCodeFileAnnotation : Nat := 100
 
-def Final.exit : Final → Nat
-  | .ok => 0
-  | .fileAnnotation => exitCodeFileAnnotation
-  | .importNotExist => exitCodeFileAnnotation
-  | .other => 1
+/-- app.newAppError: exit code 0 is turned into 1 (with a message of its own) -/
+def newAppError (code : Nat) (inner : GoErr) : GoErr :=
+  if code = 0 then .app 1 (.wrapf inner) else .app code inner
+
+/-- bufctl.ErrFileAnnotation = app.NewError(100, "") -/
+def errFileAnnotation : GoErr := newAppError exitCodeFileAnnotation (.plain false)
+
+/-- the system-error step of wrapError: `err = fmt.Errorf("it looks like you have found a bug …: %w",
+    sysError.Unwrap())` — everything outside the *syserror.Error is dropped -/
+def sysStrip (e : GoErr) : GoErr :=
+  match e.findSys with
+  | some u => .wrapf u
+  | none => e
+
+/-- the tail of wrapError: system error, ImportNotExistError → app.WrapError(100, it), "Failure: %w" -/
+def wrapTail (e : GoErr) : GoErr :=
+  let e1 := sysStrip e
+  let e2 := if e1.hasImport then newAppError exitCodeFileAnnotation .importNotExist else e1
+  .wrapf e2
+
+/-- buf.go wrapError (the interceptor around every command), as coded:
+    nil stays nil; a non-connect error with an empty message is returned as it is; the special
+    connect codes are answered with a fresh error (the chain is dropped); everything else goes
+    through the system-error / import-not-found / "Failure:" tail. -/
+def wrapError : Option GoErr → Option GoErr
+  | none => none
+  | some e =>
+    match e.findConnect with
+    | none => if e.text then some (wrapTail e) else some e
+    | some true => some (.plain true)
+    | some false => some (wrapTail e)
+
+/-- app.GetExitCode -/
+def getExitCode : Option GoErr → Nat
+  | none => 0
+  | some e => (e.findApp).getD 1
+
+/-- printError: something is written to stderr exactly when `err.Error() != ""` -/
+def textOf : Option GoErr → Bool
+  | none => false
+  | some e => e.text
+
+/-- wrapError took its `errors.As(err, &importNotExistError)` branch -/
+def importBranch (e : GoErr) : Bool :=
+  (match e.findConnect with
+   | none => e.text
+   | some s => !s) && (sysStrip e).hasImport
+
+abbrev Step := Option GoErr
+
+/-- a step and whether it runs inside a controller method (`defer
+    handleFileAnnotationSetRetError`) or directly in the command's `run` -/
+abbrev CStep := Bool × Step
 
 /-- Observable outcome of a command run. -/
 structure Outcome where
-  final : Final
+  /-- what the command's `run` returned (before the interceptor) -/
+  ret : Option GoErr
   /-- annotations rendered (in the requested --error-format), in order -/
   printed : List Annot
   /-- `buf format --exit-code` found a difference -/
   diff : Bool
 deriving DecidableEq, Repr
 
-def Outcome.exit (o : Outcome) : Nat := o.final.exit
-/-- printError writes "Failure: …" exactly for errors with a non-empty message. -/
-def Outcome.failureLine (o : Outcome) : Bool :=
-  o.final == .importNotExist || o.final == .other
+/-- the error app.Run receives -/
+def Outcome.err (o : Outcome) : Option GoErr := wrapError o.ret
+def Outcome.exit (o : Outcome) : Nat := getExitCode o.err
+/-- printError writes the message exactly for errors with a non-empty one ("Failure: …") -/
+def Outcome.failureLine (o : Outcome) : Bool := textOf o.err
+/-- the run ended in wrapError's import-not-found branch -/
+def Outcome.importNotFound (o : Outcome) : Bool :=
+  match o.ret with
+  | none => false
+  | some e => importBranch e
 
-/-- a step that goes through a controller method: `defer handleFileAnnotationSetRetError`
-    prints the set and swaps the error for ErrFileAnnotation. -/
-def failStep (e : StepErr) (printedSoFar : List Annot) : Outcome :=
-  match e with
-  | .annots hd tl => { final := .fileAnnotation, printed := printedSoFar ++ dedupSort (hd :: tl), diff := false }
-  | .importNotExist => { final := .importNotExist, printed := printedSoFar, diff := false }
-  | .other => { final := .other, printed := printedSoFar, diff := false }
+/-- controller.handleFileAnnotationSetRetError: a FileAnnotationSet in the error tree is printed
+    (de-duplicated and sorted by its NewFileAnnotationSet) and the error replaced by
+    ErrFileAnnotation; any other error is left alone.  (Writes to stdout / stderr are taken to
+    succeed: the branch that replaces the error by the writer's error is not modelled.) -/
+def handleFAS (e : GoErr) : GoErr × List Annot :=
+  match e.findAnnots with
+  | some (hd, tl) => (errFileAnnotation, dedupSort (hd :: tl))
+  | none => (e, [])
 
-/-- controller steps run in sequence; the first failing one ends the command. -/
-def runSteps : List Step → Option Outcome
+/-- a failing step inside a controller method -/
+def failStep (e : GoErr) (printedSoFar : List Annot) : Outcome :=
+  { ret := some (handleFAS e).1, printed := printedSoFar ++ (handleFAS e).2, diff := false }
+
+/-- a failing step directly in `run`: returned as it is, nothing printed -/
+def failDirect (e : GoErr) : Outcome := { ret := some e, printed := [], diff := false }
+
+def Outcome.ok : Outcome := { ret := none, printed := [], diff := false }
+
+/-- steps run in sequence; the first failing one ends the command. -/
+def runSteps : List CStep → Option Outcome
   | [] => none
-  | none :: rest => runSteps rest
-  | some e :: _ => some (failStep e [])
+  | (_, none) :: rest => runSteps rest
+  | (true, some e) :: _ => some (failStep e [])
+  | (false, some e) :: _ => some (failDirect e)
 
 /-- the check loop of lint / breaking: annotation sets are collected (each already
-    de-duplicated and sorted by its NewFileAnnotationSet), any other error aborts
+    de-duplicated and sorted by its NewFileAnnotationSet), any other error is returned at once
     WITHOUT printing what was collected. -/
 def checkLoop : List Step → List Annot → Outcome
   | [], acc =>
-    if acc = [] then { final := .ok, printed := [], diff := false }
-    else { final := .fileAnnotation, printed := dedupSort acc, diff := false }
+    if acc = [] then Outcome.ok
+    else { ret := some errFileAnnotation, printed := dedupSort acc, diff := false }
   | none :: rest, acc => checkLoop rest acc
-  | some (.annots hd tl) :: rest, acc => checkLoop rest (acc ++ dedupSort (hd :: tl))
-  | some .importNotExist :: _, _ => { final := .importNotExist, printed := [], diff := false }
-  | some .other :: _, _ => { final := .other, printed := [], diff := false }
+  | some e :: rest, acc =>
+    match e.findAnnots with
+    | some (hd, tl) => checkLoop rest (acc ++ dedupSort (hd :: tl))
+    | none => failDirect e
 
-/-- `buf lint` / `buf breaking`: controller steps (build the image(s) — compile errors are
-    annotation sets, a missing import is ImportNotExist), then one check per image. -/
-def lintLike (controller : List Step) (checks : List Step) : Outcome :=
-  match runSteps controller with
-  | some o => o
-  | none => checkLoop checks []
+/-- errors.Join(retErr, closeErr); a join with one non-nil member is identified with that member
+    (same Error(), same errors.As answers) -/
+def joinErr : Option GoErr → Option GoErr → Option GoErr
+  | none, none => none
+  | some a, none => some a
+  | none, some b => some b
+  | some a, some b => some (.join a b)
 
-/-- `buf build`: GetImage then PutImage. -/
-def build (controller : List Step) : Outcome :=
-  match runSteps controller with
+/-- `buf lint` / `buf breaking`: `pre` = the steps before `defer wasmRuntime.Close` is
+    registered (flag validation, GetInputValue, NewController, NewWasmRuntime — all directly in
+    `run`); then the steps that build the image(s) (controller methods: compile errors are
+    annotation sets) mixed with direct ones (breaking: "input contained n images …"), one check
+    per image, and finally `retErr = errors.Join(retErr, wasmRuntime.Close(ctx))`. -/
+def lintLike (pre : List Step) (body : List CStep) (checks : List Step) (close : Step) : Outcome :=
+  match runSteps (pre.map fun s => (false, s)) with
   | some o => o
-  | none => { final := .ok, printed := [], diff := false }
+  | none =>
+    let o := match runSteps body with
+      | some o => o
+      | none => checkLoop checks []
+    { o with ret := joinErr o.ret close }
+
+/-- `buf build` (GetImage, PutImage in controller methods, the rest directly) — and every other
+    command that is a plain sequence of steps, e.g. `buf dep graph` (GetWorkspace, ModuleSetToDAG). -/
+def build (steps : List CStep) : Outcome :=
+  match runSteps steps with
+  | some o => o
+  | none => Outcome.ok
 
 /-! ### `buf format` and its output modes
 
@@ -450,8 +925,8 @@ def FmtEffects.none : FmtEffects :=
 
 /-- the deferred `if retErr == nil && flags.ExitCode && diffExists { retErr = ErrFileAnnotation }` -/
 def fmtDeferred (m : FmtMode) (diffExists : Bool) : Outcome :=
-  if m.exitCode && diffExists then { final := .fileAnnotation, printed := [], diff := true }
-  else { final := .ok, printed := [], diff := false }
+  if m.exitCode && diffExists then { ret := some errFileAnnotation, printed := [], diff := true }
+  else Outcome.ok
 
 /-- the part of `run` after the diff: the return path selected by the mode.  An I/O error
     returns at once (the deferred function then leaves it alone: `retErr != nil`). -/
@@ -459,7 +934,7 @@ def fmtTail (m : FmtMode) (diffExists : Bool) (io : FmtIO) : Outcome × FmtEffec
   -- `if flags.Diff { if diffExists { io.Copy(stdout, diffBuffer) } … }`
   let copy : Step := if m.diff && diffExists then io.copyDiff else none
   match copy with
-  | some e => (failStep e [], FmtEffects.none)
+  | some e => (failDirect e, FmtEffects.none)
   | none =>
     let eff : FmtEffects := { FmtEffects.none with stdoutDiff := m.diff && diffExists }
     if m.diff && m.out == .stdout && !m.write then
@@ -469,11 +944,11 @@ def fmtTail (m : FmtMode) (diffExists : Bool) (io : FmtIO) : Outcome × FmtEffec
       -- only the changed paths are re-written: nothing to do (and nothing to fail) without a diff
       let rw : Step := if diffExists then io.rewrite else none
       match rw with
-      | some e => (failStep e [], eff)
+      | some e => (failDirect e, eff)
       | none => (fmtDeferred m diffExists, { eff with rewrote := diffExists })
     else
       match io.output with
-      | some e => (failStep e [], eff)
+      | some e => (failDirect e, eff)
       | none =>
         (fmtDeferred m diffExists,
           { eff with stdoutSource := m.out == .stdout, wroteOut := m.out == .path })
@@ -486,34 +961,54 @@ def FmtMode.ioSteps (m : FmtMode) (diffExists : Bool) (io : FmtIO) : List Step :
    else [io.output])
 
 /-- `buf format`: flag validation (an invalid combination is an invalid-argument error, i.e.
-    operational), controller steps (GetWorkspace), FormatBucket + diff (`fmtStep`: a parse error
-    is a plain error here — bufformat does not produce annotation sets), then the return path
-    of the mode. -/
-def formatFull (m : FmtMode) (srcWritable : Bool) (controller : List Step) (fmtStep : Step)
+    operational), controller steps (NewController directly, GetWorkspace in a controller method),
+    FormatBucket + diff directly in `run` (`fmtStep`: a parse error is a plain error here —
+    bufformat does not produce annotation sets, and if it did nothing would print them), then the
+    return path of the mode (its I/O steps run directly in `run` as well). -/
+def formatFull (m : FmtMode) (srcWritable : Bool) (controller : List CStep) (fmtStep : Step)
     (diffExists : Bool) (io : FmtIO) : Outcome × FmtEffects :=
-  if !m.valid srcWritable then (failStep .other [], FmtEffects.none)
+  if !m.valid srcWritable then (failDirect (.plain true), FmtEffects.none)
   else
-    match runSteps (controller ++ [fmtStep]) with
+    match runSteps (controller ++ [(false, fmtStep)]) with
     | some o => (o, FmtEffects.none)
     | none => fmtTail m diffExists io
 
-def format (m : FmtMode) (srcWritable : Bool) (controller : List Step) (fmtStep : Step)
+def format (m : FmtMode) (srcWritable : Bool) (controller : List CStep) (fmtStep : Step)
     (diffExists : Bool) (io : FmtIO) : Outcome :=
   (formatFull m srcWritable controller fmtStep diffExists io).1
 
-/-- The four commands of the property with the abstract results of their steps. -/
+/-- The four commands of the property with the abstract results of their steps, and `buf dep
+    graph` — the command that reaches `ModuleDeps()` and with it the ImportNotExistError of a
+    `.proto` file importing a file that does not exist (build / lint / breaking / format get a
+    compile annotation for that from the image build and never call `ModuleDeps()`). -/
 inductive Cmd where
-  | lint (controller checks : List Step)
-  | breaking (controller checks : List Step)
-  | build (controller : List Step)
-  | format (mode : FmtMode) (srcWritable : Bool) (controller : List Step) (fmtStep : Step)
+  | lint (pre : List Step) (body : List CStep) (checks : List Step) (close : Step)
+  | breaking (pre : List Step) (body : List CStep) (checks : List Step) (close : Step)
+  | build (steps : List CStep)
+  | format (mode : FmtMode) (srcWritable : Bool) (controller : List CStep) (fmtStep : Step)
       (diffExists : Bool) (io : FmtIO)
+  | depGraph (steps : List CStep)
 deriving Repr
 
 def Cmd.run : Cmd → Outcome
-  | .lint c k => lintLike c k
-  | .breaking c k => lintLike c k
+  | .lint p c k cl => lintLike p c k cl
+  | .breaking p c k cl => lintLike p c k cl
   | .build c => BufModel.Annot.build c
   | .format m sw c f d io => BufModel.Annot.format m sw c f d io
+  | .depGraph c => BufModel.Annot.build c
+
+/-- every error a step of the command can return -/
+def Cmd.stepErrs : Cmd → List GoErr
+  | .lint p c k cl => (p ++ c.map (·.2) ++ k ++ [cl]).filterMap id
+  | .breaking p c k cl => (p ++ c.map (·.2) ++ k ++ [cl]).filterMap id
+  | .build c => (c.map (·.2)).filterMap id
+  | .format _ _ c f _ io => (c.map (·.2) ++ [f, io.copyDiff, io.rewrite, io.output]).filterMap id
+  | .depGraph c => (c.map (·.2)).filterMap id
+
+/-- the `wasmRuntime.Close` error joined to the result of lint / breaking -/
+def Cmd.closeErr : Cmd → Step
+  | .lint _ _ _ cl => cl
+  | .breaking _ _ _ cl => cl
+  | _ => none
 
 end BufModel.Annot
